@@ -879,7 +879,7 @@ int run(const Args& A) {
     if (!A.get("force-polrel").empty()) { force.polrel = true; force.prel = polFromCsv(A.get("force-polrel")); }
     if (!A.get("force-dom").empty()) for (auto& x : splitOn(A.get("force-dom"), ',')) force.dom.push_back(atoi(x.c_str()));
     // ---- random scenarios
-    long ncases = A.cases >= 0 ? A.cases : (A.thorough() ? 12000 : 2500);
+    long ncases = A.cases >= 0 ? A.cases : (A.thorough() ? 20000 : 7000);
     for (long c = 0; c < ncases; c++) {
         if (!A.selected(c)) continue;
         Rng r(Rng::mix(A.seed, uint64_t(c)));
